@@ -20,6 +20,7 @@ mv $DEMO /tmp/seed_demo_aside
 echo "== suite with change (must pass)"; go test -vet=off -count=1 ./... >/tmp/seed_suite.txt 2>&1 && SUITE=pass || SUITE=fail
 mv /tmp/seed_demo_aside $DEMO
 echo "build=$BUILD demo_with=$WITH demo_without=$WITHOUT suite=$SUITE"
+if [ -n "$(git -C /repo status --porcelain)" ]; then echo "refusing: /repo has uncommitted changes (commit contract edits first)"; exit 2; fi
 cd /repo && git apply $OUT/patch.diff || { echo "patch does not apply to /repo"; exit 2; }
 RES=""
 for P in $PROPS; do
